@@ -5,7 +5,9 @@
 #include <fstream>
 #include <string>
 #include <vector>
+#include <map>
 #include <cstdlib>
+#include <cstring>
 namespace catalog {
 inline std::string resource_dir()
 {
@@ -23,7 +25,80 @@ inline std::vector<std::string> read_list(const std::string & file)
 }
 inline const std::vector<std::string> & background_published() { static std::vector<std::string> v = read_list("background_isotopes.lis"); return v; }
 inline const std::vector<std::string> & dbd_published() { static std::vector<std::string> v = read_list("dbd_isotopes.lis"); return v; }
-#ifdef REF_DBD_AVAILABLE
-#endif
+
+// ---- README.rst appendix (our own parser; the README is the published catalogue)
+inline std::vector<std::string> readme_lines()
+{
+  const char * e = getenv("VERIF_REPO"); std::string r = e ? e : "/repo";
+  std::vector<std::string> v; std::ifstream f(r + "/README.rst"); std::string l; while (std::getline(f, l)) v.push_back(l); return v;
+}
+inline std::vector<std::string> readme_section(const std::string & title)
+{
+  std::vector<std::string> out; auto L = readme_lines(); bool in = false;
+  for (size_t i = 0; i < L.size(); i++) {
+    bool is_title = i + 1 < L.size() && L[i + 1].size() >= 3 && L[i + 1].find_first_not_of("-=") == std::string::npos && !L[i].empty();
+    if (is_title) { if (in) break; if (L[i].find(title) == 0) { in = true; i++; continue; } }
+    if (in) out.push_back(L[i]);
+  }
+  return out;
+}
+inline std::string first_literal(const std::string & l, size_t from = 0)
+{ size_t a = l.find("``", from); if (a == std::string::npos) return ""; size_t b = l.find("``", a + 2); if (b == std::string::npos) return ""; return l.substr(a + 2, b - a - 2); }
+inline std::vector<std::string> readme_background()
+{
+  std::vector<std::string> v;
+  for (auto & l : readme_section("List of standard radioactive isotopes")) {
+    if (l.compare(0, 2, "* ") != 0) continue;
+    std::string n = first_literal(l); size_t f = l.find("(for ``");
+    if (f != std::string::npos) n = first_literal(l, f);
+    if (!n.empty()) v.push_back(n);
+  }
+  return v;
+}
+inline std::vector<std::string> readme_dbd()
+{
+  std::vector<std::string> v;
+  for (auto & l : readme_section("List of supported  double beta decay isotopes")) { if (l.compare(0, 2, "* ") != 0) continue; std::string n = first_literal(l); if (!n.empty()) v.push_back(n); }
+  return v;
+}
+// energy (MeV) of daughter level `lev` of isotope `iso` from the README appendix, -1 if absent
+inline double readme_level_energy(const std::string & iso, int lev)
+{
+  static std::map<std::string, std::vector<double>> tab;
+  if (tab.empty()) {
+    std::string cur;
+    for (auto & l : readme_section("List of daughter nucleus excited states")) {
+      if (l.compare(0, 2, "* ") == 0) { cur = first_literal(l); continue; }
+      size_t b = l.find('{'); if (cur.empty() || b == std::string::npos) continue;
+      size_t a = l.find_first_not_of(" "); int k = atoi(l.c_str() + a);
+      double e = atof(l.c_str() + b + 1);
+      auto & v = tab[cur]; if ((int)v.size() <= k) v.resize(k + 1, -1.0); v[k] = e;
+    }
+  }
+  auto it = tab.find(iso); if (it == tab.end() || lev < 0 || lev >= (int)it->second.size()) return -1.0; return it->second[lev];
+}
+inline int readme_level_count(const std::string & iso) { int n = 0; while (readme_level_energy(iso, n) >= 0) n++; return n; }
+// mode id -> (label, legacy id or -1)
+inline std::map<int, std::pair<std::string, int>> lis_modes()
+{
+  std::map<int, std::pair<std::string, int>> m; std::ifstream f(resource_dir() + "/description/dbd_modes.lis"); std::string l;
+  while (std::getline(f, l)) { size_t a = l.find_first_not_of(" \t"); if (a == std::string::npos || l[a] == '#') continue; int id, leg; char lab[64]; if (sscanf(l.c_str(), "%d %63s %d", &id, lab, &leg) == 3) m[id] = {lab, leg}; }
+  return m;
+}
+inline std::map<int, std::pair<std::string, int>> readme_modes()
+{
+  std::map<int, std::pair<std::string, int>> m;
+  for (auto & l : readme_section("List of supported double beta decay modes")) {
+    if (l.compare(0, 10, "``DBDMODE_") != 0) continue;
+    std::vector<std::string> tok; size_t pos = 0;
+    while (true) { size_t q = l.find("``", pos); if (q == std::string::npos) { tok.push_back(l.substr(pos)); break; } tok.push_back(l.substr(pos, q - pos)); pos = q + 2; }
+    if (tok.size() < 5) continue;
+    int id = atoi(tok[1].c_str() + 8); std::string lab = tok[3];
+    size_t p = tok[4].find_first_not_of(" ");
+    int leg = (p == std::string::npos || tok[4].compare(p, 2, "NA") == 0) ? -1 : atoi(tok[4].c_str() + p);
+    m[id] = {lab, leg};
+  }
+  return m;
+}
 } // namespace catalog
 #endif
